@@ -70,6 +70,26 @@ def run(ctx, prog, res):
                  "%s bypasses the locale parameter: %s" % (name, concrete), lib.where_of(f))
     witness.run_positive(ctx, prog, res, "C09.W", "a Localize implementation with an opaque DateTime type (only Clone + Add<Duration>) compiles against iter_range/iter_from/next_change/state: the evaluator cannot construct or inspect localized instants except through the locale", group="c09")
 
+    # R5 -------------------------------------------------------------------------------------
+    r5 = res.rule("C09.R5", "all time arithmetic of the evaluator is done on wall-clock values: no function of the generic evaluator adds to, subtracts from or compares localized instants (L::DateTime) - one minute later in absolute time can be an earlier wall-clock time when the clock is set back, so a window built on localized instants can be inverted")
+    import common
+    reach, _ = prog.reachable([prog.require_fn(OHT + n).id for n in ("iter_range", "iter_from", "next_change", "state", "is_open", "is_closed", "is_unknown")])
+    n_fns = 0
+    for fid in sorted(reach):
+        f = prog.fns[fid]
+        if f.crate != lib.OH or f.from_expansion:
+            continue
+        n_fns += 1
+        for _, t in f.calls():
+            c = t["callee"]
+            if "indirect" in c:
+                continue
+            pa = re.sub(r"'\w+ ?", "", c.get("path_args", ""))
+            m = re.match(r"<<L as opening_hours::localization::localize::Localize>::DateTime as core::(ops::arith::(Add|Sub|AddAssign|SubAssign)|cmp::(PartialOrd|Ord))", pa)
+            if m:
+                r5.fail("C09.R5:%s:%s" % (f.id, m.group(2) or m.group(3)), "%s does %s on a localized instant (L::DateTime): time arithmetic must be done on the wall-clock value returned by L::naive" % (f.id, m.group(2) or m.group(3)), lib.where_of(f, t))
+    r5.ok({"evaluator_functions_inspected": n_fns, "arithmetic_or_ordering_on_localized_instants": 0})
+
     # R4 -------------------------------------------------------------------------------------
     r4 = res.rule("C09.R4", "the Python locale delegates naive/datetime/event_time to NoLocation resp. the wrapped TzLocation per variant")
     PL = "opening_hours_py::types::location::PyLocation"
